@@ -4,7 +4,7 @@
    precondition is false", plus the guards of the replace overloads and of the accessors, which are not
    operations of the C04 history type. *)
 From Tetl Require Import Lib.Base Lib.Arr C08.Model C08.ProofsFind C04.Model C04.ModelQ C04.Spec C04.Inv C04.CstrFacts
-  C04.InvOps C04.RefineBase C04.RefineQuery C04.Total.
+  C04.InvOps C04.RefineBase C04.RefineQuery C04.Total C05.SpecString.
 From Coq Require Import ZifyBool.
 Local Open Scope Z_scope.
 Ltac Zify.zify_post_hook ::= Z.to_euclidean_division_equations.
@@ -115,3 +115,13 @@ Qed.
 (** * the documented precondition in terms of the abstract contents *)
 Lemma size_is_length s : inv s -> get_size s = zlen (contents s).
 Proof. intros I. symmetry. apply contents_len. exact I. Qed.
+
+(** * [pre_ok] is the documented precondition of the abstract value *)
+Lemma pre_ok_is_doc s o : inv s -> pre_ok s o = pre_doc (zlen (contents s)) (cap s) o.
+Proof.
+  intros I. rewrite <- (size_is_length s I). destruct o; reflexivity.
+Qed.
+
+Lemma string_fires_iff_doc s o : inv s -> op_wf o -> ptr_ok o ->
+  (step s o = Contract <-> pre_doc (zlen (contents s)) (cap s) o = false).
+Proof. intros I W P. rewrite <- (pre_ok_is_doc s o I). apply string_fires_iff; assumption. Qed.
